@@ -22,6 +22,7 @@ RULE = ("command sequences sent one at a time by a raw peer: (a) model-guided ra
         "after a login prefix.  After every command: number of marks, final code against the model's accepted set, "
         "session alive, silence (nothing unsolicited), spy tree == model tree, PWD/MLST/listing/download content.  "
         "distinct = distinct (command, reply) transcripts; non-trivial = at least 2 commands after login.")
+RULE += ("  " + 'Also: REST arguments of thousands of digits; the random, pair and targeted sequences under non-default server configurations (wait_future_timeout=None, connection limits of 1, all time-outs set).')
 ASSUMPTIONS = [
     "harness/ftpmodel.py is the specification; where it returns a set of outcomes any member is accepted",
     "the peer re-issues PASV/EPSV before a transfer whenever its previous data connection was not consumed by a "
